@@ -228,7 +228,8 @@ def decide(prop: str, tier: str, seed: int, replay: str | None) -> int:
     for l in lines:
         print(l, flush=True)
     try:
-        common.write_evidence(prop, ev)
+        if not replay:  # a replay of one recorded case must not overwrite the evidence of the last full run
+            common.write_evidence(prop, ev)
     except Exception:
         log("evidence does not validate:\n" + traceback.format_exc())
         ctx.cleanup()
